@@ -1,6 +1,9 @@
 #!/bin/sh
-# usage: tools/try_mutant.sh <patch.diff> <Cxx> [Cyy ...]  — apply to /repo, run quick checks, undo
+# usage: tools/try_mutant.sh <patch.diff> <Cxx> [Cyy ...]  — apply to /repo, run quick checks, undo.
+# The evidence files are put back afterwards: what is committed under evidence/ must describe the unchanged tree.
 patch="$1"; shift
-git -C /repo apply "$patch" || { echo "patch does not apply"; exit 2; }
+bak=$(mktemp -d /tmp/evbak.XXXXXX); cp -a /verif/evidence/. $bak/
+git -C /repo apply "$patch" || { echo "patch does not apply"; rm -rf $bak; exit 2; }
 for p in "$@"; do timeout 1200 /verif/check "$p" quick 2>&1 | tail -4; done
 git -C /repo checkout -- . && git -C /repo clean -fdq
+cp -a $bak/. /verif/evidence/; rm -rf $bak
